@@ -4,6 +4,7 @@ import (
 	"bytes"
 	"fmt"
 	"io"
+	"os"
 	"path/filepath"
 	"strings"
 
@@ -85,7 +86,7 @@ func wObserve(w *writer.Writer) []string {
 		tok(w.Options.GetFormatOptions("*nativefakes.FakeSerializer")), tok(w.Options.GetFormatOptions("other"))}
 }
 
-func (r *Report) writerHistory(g *gen.G, cf *CasesFile) {
+func (r *Report) writerHistory(g *gen.G, cf *CasesFile, dir string) {
 	fa, fb := &nativefakes.FakeSerializer{}, &nativefakes.FakeSerializer{}
 	writer.RegisterSerializer(fmtA, fa)
 	writer.RegisterSerializer(fmtB, fb)
@@ -93,6 +94,7 @@ func (r *Report) writerHistory(g *gen.G, cf *CasesFile) {
 	defer writer.UnregisterSerializer(fmtB)
 	defaults := [][2]string{{"format", ""}, {"indent", "4"}, {"noclobber", "false"}, {"store-backend", ""}}
 	var insts []*writer.Writer
+	var percall []wPerCall
 	wrec := &recBackend{}
 	var hist, obs, calls []string
 	var desc []any
@@ -174,7 +176,13 @@ func (r *Report) writerHistory(g *gen.G, cf *CasesFile) {
 				r.Count("writer:store")
 			} else if g.Chance(0.5) && w.Options.Format != "" {
 				nA, nB := fa.SerializeCallCount(), fb.SerializeCallCount()
-				err := w.WriteStream(doc, nopCloser{&bytes.Buffer{}})
+				var err error
+				if g.Chance(0.3) {
+					err = w.WriteFile(doc, filepath.Join(dir, "c18-out.tmp")) // the file entry point: same options as the stream one
+					r.Count("writer:call-plain-file")
+				} else {
+					err = w.WriteStream(doc, nopCloser{&bytes.Buffer{}})
+				}
 				eff := wEffective(fa, fb, nA, nB, err)
 				hist = append(hist, fmt.Sprintf("(HCall %d%%nat None)", i))
 				calls = append(calls, coqfmt.Strs(eff))
@@ -183,22 +191,44 @@ func (r *Report) writerHistory(g *gen.G, cf *CasesFile) {
 			} else {
 				o := &writer.Options{}
 				var pc [][2]string
-				if g.Chance(0.6) || w.Options.Format == "" {
-					o.Format = gen.Pick(g, []formats.Format{fmtA, fmtB})
-					pc = append(pc, [2]string{"format", string(o.Format)})
+				if len(percall) > 0 && g.Chance(0.4) && (percall[len(percall)-1].o.Format != "" || w.Options.Format != "") {
+					// the same options value handed to a second call, possibly on another instance
+					k := g.Int(len(percall))
+					if percall[k].o.Format != "" || w.Options.Format != "" {
+						o, pc = percall[k].o, percall[k].pc
+						r.Count("writer:percall-options-reused")
+					}
 				}
-				if g.Chance(0.5) {
-					n := 1 + g.Int(8)
-					o.RenderOptions = &native.RenderOptions{Indent: n}
-					pc = append(pc, [2]string{"indent", fmt.Sprint(n)})
+				if len(pc) == 0 && o.Format == "" && o.RenderOptions == nil {
+					if g.Chance(0.6) || w.Options.Format == "" {
+						o.Format = gen.Pick(g, []formats.Format{fmtA, fmtB})
+						pc = append(pc, [2]string{"format", string(o.Format)})
+					}
+					if g.Chance(0.5) {
+						n := 1 + g.Int(8)
+						o.RenderOptions = &native.RenderOptions{Indent: n}
+						pc = append(pc, [2]string{"indent", fmt.Sprint(n)})
+					}
+					if g.Chance(0.4) {
+						t := fmt.Sprintf("pc%d", g.Int(100))
+						o.SetFormatOptions("*nativefakes.FakeSerializer", t)
+						pc = append(pc, [2]string{"fo:*nativefakes.FakeSerializer", t})
+					}
+					percall = append(percall, wPerCall{o, pc})
 				}
-				if g.Chance(0.4) {
-					t := fmt.Sprintf("pc%d", g.Int(100))
-					o.SetFormatOptions("*nativefakes.FakeSerializer", t)
-					pc = append(pc, [2]string{"fo:*nativefakes.FakeSerializer", t})
-				}
+				snap := wOptSnapshot(o)
 				nA, nB := fa.SerializeCallCount(), fb.SerializeCallCount()
-				err := w.WriteStreamWithOptions(doc, nopCloser{&bytes.Buffer{}}, o)
+				var err error
+				if g.Chance(0.3) {
+					err = w.WriteFileWithOptions(doc, filepath.Join(dir, "c18-out.tmp"), o)
+					r.Count("writer:call-with-options-file")
+				} else {
+					err = w.WriteStreamWithOptions(doc, nopCloser{&bytes.Buffer{}}, o)
+				}
+				r.OracleEvals++
+				if after := wOptSnapshot(o); after != snap {
+					r.Fail(Failure{What: "a write changed the options value it was given for that call", Detail: fmt.Sprintf("before %s, after %s", snap, after), Input: map[string]any{"history": desc, "percall": pc, "on": i}})
+				}
 				eff := wEffective(fa, fb, nA, nB, err)
 				hist = append(hist, fmt.Sprintf("(HCall %d%%nat (Some %s))", i, coqConf(pc)))
 				calls = append(calls, coqfmt.Strs(eff))
@@ -229,6 +259,24 @@ func (r *Report) writerHistory(g *gen.G, cf *CasesFile) {
 	r.NoteCase(c, len(insts) >= 2, map[string]any{"kind": "writer", "history": desc})
 }
 
+type wPerCall struct {
+	o  *writer.Options
+	pc [][2]string
+}
+
+// wOptSnapshot prints every field of a per-call options value.
+func wOptSnapshot(o *writer.Options) string {
+	ind, nc, be := "-", "-", "-"
+	if o.RenderOptions != nil {
+		ind = fmt.Sprint(o.RenderOptions.Indent)
+	}
+	if o.StoreOptions != nil {
+		nc, be = fmt.Sprint(o.StoreOptions.NoClobber), tok(o.StoreOptions.BackendOptions)
+	}
+	return fmt.Sprintf("format=%q indent=%s serialize-set=%v noclobber=%s backend=%s fo=%s fo-other=%s", o.Format, ind, o.SerializeOptions != nil, nc, be,
+		tok(o.GetFormatOptions(&nativefakes.FakeSerializer{})), tok(o.GetFormatOptions("other")))
+}
+
 // effective values observed for a write: which registered fake got the call, with what arguments
 func wEffective(fa, fb *nativefakes.FakeSerializer, nA, nB int, err error) []string {
 	var f *nativefakes.FakeSerializer
@@ -257,6 +305,26 @@ func wEffective(fa, fb *nativefakes.FakeSerializer, nA, nB int, err error) []str
 var rKeys = []string{"retrieve-backend", "fo:*nativefakes.FakeUnserializer", "fo:other"}
 var rFallback = [][2]string{{"retrieve-backend", "1"}}
 
+type rPerCall struct {
+	o  *reader.Options
+	pc [][2]string
+}
+
+func rOptSnapshot(o *reader.Options) string {
+	be := "-"
+	if o.RetrieveOptions != nil {
+		be = tok(o.RetrieveOptions.BackendOptions)
+	}
+	return fmt.Sprintf("format=%q unserialize-set=%v backend=%s fo=%s fo-other=%s", o.Format, o.UnserializeOptions != nil, be,
+		tok(o.GetFormatOptions("*nativefakes.FakeUnserializer")), tok(o.GetFormatOptions("other")))
+}
+
+// fixedSniffer reports one format for every input.
+type fixedSniffer struct{ f formats.Format }
+
+func (s fixedSniffer) SniffReader(io.ReadSeeker) (formats.Format, error) { return s.f, nil }
+func (s fixedSniffer) SniffFile(string) (formats.Format, error)          { return s.f, nil }
+
 func rObserve(rd *reader.Reader) []string {
 	be := ""
 	if rd.Options.RetrieveOptions != nil {
@@ -265,12 +333,13 @@ func rObserve(rd *reader.Reader) []string {
 	return []string{be, tok(rd.Options.GetFormatOptions("*nativefakes.FakeUnserializer")), tok(rd.Options.GetFormatOptions("other"))}
 }
 
-func (r *Report) readerHistory(g *gen.G, cf *CasesFile) {
+func (r *Report) readerHistory(g *gen.G, cf *CasesFile, dir string) {
 	fu := &nativefakes.FakeUnserializer{}
 	fu.UnserializeReturns(sbom.NewDocument(), nil)
 	reader.RegisterUnserializer(fmtA, fu)
 	defer reader.UnregisterUnserializer(fmtA)
 	var insts []*reader.Reader
+	var percall []rPerCall
 	rrec := &recBackend{}
 	var hist, obs, calls []string
 	var desc []any
@@ -298,8 +367,13 @@ func (r *Report) readerHistory(g *gen.G, cf *CasesFile) {
 					specs = append(specs, optSpec{}, optSpec{})
 				}
 			}
+			// every reader gets a sniffer that reports the fake's format (so that the entry points without a
+			// stated format reach the fake driver) and the recording backend, both through their options
+			opts = append(opts, reader.WithSniffer(fixedSniffer{fmtA}), reader.WithSniffer(nil), reader.WithStoreRetriever(rrec), reader.WithStoreRetriever(nil))
 			nr := reader.New(opts...)
-			nr.Storage = rrec
+			if nr.Storage != storage.StoreRetriever(rrec) {
+				r.Fail(Failure{What: "WithStoreRetriever did not install the given backend (or a nil argument replaced it)", Input: map[string]any{"history": desc}})
+			}
 			insts = append(insts, nr)
 			hist = append(hist, "(HNew "+coqfmt.List(specs, coqOpt)+")")
 			desc = append(desc, map[string]any{"new_reader_with": specs})
@@ -349,15 +423,66 @@ func (r *Report) readerHistory(g *gen.G, cf *CasesFile) {
 				}
 				continue
 			}
+			inPath := filepath.Join(dir, "c18-in.tmp")
+			_ = os.WriteFile(inPath, []byte("{}"), 0o600)
+			if g.Chance(0.35) {
+				// the entry points without per-call options: the instance's own configuration applies
+				n0 := fu.UnserializeCallCount()
+				var err error
+				if g.Chance(0.5) {
+					_, err = rd.ParseStream(bytes.NewReader([]byte("{}")))
+				} else {
+					_, err = rd.ParseFile(inPath)
+					r.Count("reader:call-plain-file")
+				}
+				eff := []string{"-", "", "-"}
+				if err == nil && fu.UnserializeCallCount() > n0 {
+					_, _, fo := fu.UnserializeArgsForCall(fu.UnserializeCallCount() - 1)
+					eff[1] = tok(fo)
+				} else {
+					r.Fail(Failure{What: "a reader whose sniffer reports a registered format did not reach that format's driver", Detail: fmt.Sprint(err), Input: map[string]any{"history": desc}})
+				}
+				hist = append(hist, fmt.Sprintf("(HCall %d%%nat None)", i))
+				calls = append(calls, coqfmt.Strs(eff))
+				desc = append(desc, map[string]any{"parse_plain_on": i, "effective": eff})
+				r.Count("reader:call-plain")
+				var all []string
+				for _, x := range insts {
+					all = append(all, coqfmt.Strs(rObserve(x)))
+				}
+				obs = append(obs, "["+strings.Join(all, "; ")+"]")
+				continue
+			}
 			o := &reader.Options{Format: fmtA}
 			pc := [][2]string{}
-			if g.Chance(0.5) {
-				t := fmt.Sprintf("pc%d", g.Int(100))
-				o.SetFormatOptions("*nativefakes.FakeUnserializer", t)
-				pc = append(pc, [2]string{"fo:*nativefakes.FakeUnserializer", t})
+			if len(percall) > 0 && g.Chance(0.4) {
+				k := g.Int(len(percall))
+				o, pc = percall[k].o, percall[k].pc
+				r.Count("reader:percall-options-reused")
+			} else {
+				if g.Chance(0.3) {
+					o.Format = "" // detection decides, per call
+				}
+				if g.Chance(0.5) {
+					t := fmt.Sprintf("pc%d", g.Int(100))
+					o.SetFormatOptions("*nativefakes.FakeUnserializer", t)
+					pc = append(pc, [2]string{"fo:*nativefakes.FakeUnserializer", t})
+				}
+				percall = append(percall, rPerCall{o, pc})
 			}
+			snap := rOptSnapshot(o)
 			n0 := fu.UnserializeCallCount()
-			_, err := rd.ParseStreamWithOptions(bytes.NewReader([]byte("{}")), o)
+			var err error
+			if g.Chance(0.3) {
+				_, err = rd.ParseFileWithOptions(inPath, o)
+				r.Count("reader:call-with-options-file")
+			} else {
+				_, err = rd.ParseStreamWithOptions(bytes.NewReader([]byte("{}")), o)
+			}
+			r.OracleEvals++
+			if after := rOptSnapshot(o); after != snap {
+				r.Fail(Failure{What: "a parse changed the options value it was given for that call", Detail: fmt.Sprintf("before %s, after %s", snap, after), Input: map[string]any{"history": desc, "percall": pc, "on": i}})
+			}
 			eff := []string{"-", "", "-"}
 			if err == nil && fu.UnserializeCallCount() > n0 {
 				_, _, fo := fu.UnserializeArgsForCall(fu.UnserializeCallCount() - 1)
@@ -392,8 +517,8 @@ func runC18(seed int64, n int, dir string, tier string) *Report {
 	rep.Rule = "n writer histories and n reader histories of 2..8 steps: constructor calls with random subsets of the functional options (including nil arguments), interleaved with WriteStream / WriteStreamWithOptions / Store / StoreWithOptions / ParseStreamWithOptions / Retrieve / RetrieveWithOptions on random instances against registered fake drivers and a storage backend that record the options they receive; after every step a freshly constructed instance is compared with the documented defaults; after every step every live instance's option fields are read; non-trivial = at least two instances alive; distinct by hash"
 	cf := &CasesFile{Imports: "Model.Base Model.Opts Corr.CheckC18", Type: "case18", Eval: "mismatches"}
 	for i := 0; i < n; i++ {
-		rep.writerHistory(g, cf)
-		rep.readerHistory(g, cf)
+		rep.writerHistory(g, cf, dir)
+		rep.readerHistory(g, cf, dir)
 	}
 	rep.CasesFiles = cf.Write(filepath.Join(dir, "cases_C18"))
 	rep.ShardSize = shardSize
